@@ -196,7 +196,7 @@ func execute(cfg config) int {
 		runs = append(runs, r)
 	}
 
-	total, viols, skipped := 0, 0, 0
+	total, viols, skipped, productive := 0, 0, 0, 0
 	perRun := time.Duration(0) // measured wall time per run of the batches so far
 	for len(runs) > 0 {
 		left := budget - time.Since(start)
@@ -241,6 +241,9 @@ func execute(cfg config) int {
 			if len(r.viol) > 0 {
 				viols++
 			}
+			if r.checks > 0 {
+				productive++
+			}
 			for _, v := range r.viol {
 				line += " VIOL " + v
 			}
@@ -253,7 +256,13 @@ func execute(cfg config) int {
 			}
 		}
 	}
-	fmt.Printf("c05 summary runs=%d viol=%d skipped_for_time=%d elapsed_s=%d\n", total, viols, skipped, int(time.Since(start).Seconds()))
+	fmt.Printf("c05 summary runs=%d viol=%d productive=%d skipped_for_time=%d elapsed_s=%d\n", total, viols, productive, skipped, int(time.Since(start).Seconds()))
+	if total > 0 && productive*2 < total {
+		// a run that compared nothing (schemas rejected by the harness, tests not started) must not
+		// look like a pass: the runner treats a non-zero exit as a broken check
+		fmt.Fprintln(os.Stderr, "c05: fewer than half of the runs executed any comparison")
+		return 3
+	}
 	return 0
 }
 
